@@ -12,6 +12,8 @@
 //            2 free-floating tree, internal forces only (energy AND momentum)
 //            3 dissipative (dampers added to 0): energy must not increase
 //            4 LinearBushing with damping: energy + reported dissipated energy is constant
+//            5 CompliantContactSubsystem (spheres on a half-space, Hunt-Crossley dissipation, no friction): energy + reported
+//              dissipated energy is constant
 #include "Simbody.h"
 #include "hcommon.h"
 #include <algorithm>
@@ -41,23 +43,21 @@ static Integrator* makeIntegrator(int k, const System& sys) {
     default: return new SemiExplicitEuler2Integrator(sys);
     }
 }
-// Measured on the clean tree (seeds 1..40 x 300 trajectories, 2026-09-22, see notes/C11.md): worst normalised value per
-// integrator, rounded up, floored at 1.  The bounds printed in the P lines are these x 10.
+// Constants measured on the clean tree PER (integrator, accuracy) cell (see notes/C11.md): worst normalised value, rounded up,
+// floored at 1.  Bounds printed in the P lines are these x 10.  Columns = accuracy 1e-3 .. 1e-8.
 //   energy            max_t |E(t)-E(0)| / (accuracy * T * scale)        scenarios 0, 2 (unconstrained, conservative)
 //   energyConstrained the same with one workless constraint              scenario 1
 //   momentum          max(|dP_lin|/p, |dP_ang|/(p L)) / (accuracy * T)   scenario 2 (free-floating, internal forces)
 //   monotone          max(E_{i+1}-E_i, E_end-E_0) / (accuracy * T * scale)   scenario 3 (dampers)
-//   bushing           max_t |E+dissipated - (E+dissipated)(0)| / (accuracy * T * scale)   scenario 4
-struct Consts { double energy, energyConstrained, momentum, monotone, bushing; };
-static const Consts MEASURED[NINTEG] = {
-    /*RungeKuttaMerson  */ {11, 22, 6.7, 4.4, 3.2},
-    /*RungeKuttaFeldberg*/ {63, 280, 120, 140, 7.3},
-    /*RungeKutta3       */ {6.1, 4.2, 1, 1, 1.8},
-    /*RungeKutta2       */ {2.7, 1, 1.2, 1, 1},
-    /*Verlet            */ {920, 300, 4200, 36, 150},
-    /*CPodes            */ {50, 48, 70, 5, 9.2},
-    /*ExplicitEuler     */ {1100, 1100, 670, 300, 440},
-    /*SemiExplicitEuler2*/ {220, 270, 460, 220, 68}};
+//   account           max_t |E+dissipated - (E+dissipated)(0)| / (accuracy * T * scale)   scenarios 4 (bushing), 5 (contact)
+// A cell whose bound allows a drift of >= 10 % of the energy (momentum) scale over the run is tagged `uninformative.*`
+// (it can only catch blow-ups); the final coverage record requires a minimum number of informative cases per integrator.
+enum Metric { M_ENERGY, M_ENERGYC, M_MOMENTUM, M_MONOTONE, M_ACCOUNT, NMETRIC };
+static const char* METRIC_NAMES[] = {"energy", "energy.constrained", "momentum", "monotone", "account"};
+// BEGIN MEASURED
+static const double MEASURED[NINTEG][NMETRIC][6] = {};
+static const double CONVERGENCE[NINTEG] = {1, 1, 1, 1, 1, 1, 1, 1};
+// END MEASURED
 
 struct Model {
     MultibodySystem sys; SimbodyMatterSubsystem matter; GeneralForceSubsystem forces;
@@ -65,35 +65,37 @@ struct Model {
     std::vector<Force::LinearBushing> bushings;
     Model() : matter(sys), forces(sys) {}
 };
-static const char* MOB[] = {"Pin", "Ball", "Slider", "Universal", "Free", "Cylinder", "Gimbal", "Weld", "LoneParticle"};
+static const char* MOB[] = {"Pin", "Ball", "Slider", "Universal", "Free", "Cylinder", "Gimbal", "Weld", "LoneParticle", "Planar", "Translation", "Screw"};
+static int g_informative[NINTEG][NMETRIC], g_cases[NINTEG];
 
 static void runCase(uint64_t caseSeed) {
     vh::Rng r(caseSeed);
     if (std::getenv("C11_TRACE")) std::fprintf(stderr, "case %llu\n", (unsigned long long)caseSeed);
-    const int scn = r.below(5);
+    const int scn = r.below(6);
     const int integ = r.below(NINTEG);
-    // accuracies 1e-3 .. 1e-7 (first-order methods and the fixed-order-2 methods only down to what is affordable)
-    int accExp = 3 + r.below(5);
-    if (integ >= 6) accExp = 3 + r.below(2);
-    else if (integ == 3 || integ == 4) accExp = 3 + r.below(4);
+    // accuracies 1e-3 .. 1e-8, weighted towards those where the bounds bite; first-order methods 1e-4 .. 1e-7
+    static const int ACC_GENERAL[12] = {3, 4, 5, 5, 6, 6, 6, 7, 7, 7, 8, 8};
+    static const int ACC_FIRST[8] = {4, 5, 5, 6, 6, 6, 7, 7};
+    int accExp = integ >= 6 ? ACC_FIRST[r.below(8)] : ACC_GENERAL[r.below(12)];
     const double acc = std::pow(10.0, -accExp);
     const bool floating = scn == 2;
-    const int nb = (scn == 4) ? 1 + r.below(2) : 1 + r.below(5);
+    const int nb = (scn >= 4) ? 1 + r.below(2) : 1 + r.below(5);
 
     Model M; MultibodySystem& sys = M.sys; SimbodyMatterSubsystem& matter = M.matter;
     M.bodies.push_back(matter.Ground()); M.type.push_back(-1);
     double Mtot = 0;
     for (int i = 0; i < nb; ++i) {
         int p = r.below((int)M.bodies.size());
-        if (floating && i > 0 && p == 0) p = 1;                     // one base body only: a single floating tree
+        if (floating && i > 0 && p == 0) p = 1;
+        if (scn == 5) p = 0;                                       // contact scenario: independent free bodies                     // one base body only: a single floating tree
         Real m = 0; Vec3 com(0); Inertia I(0);
         for (int k = 0; k < 4; ++k) { Vec3 x = rv(r, 0.4); Real mk = r.range(0.2, 1.0); m += mk; com += mk * x; I += Inertia(x, mk); }
         com /= m; Mtot += m;
         Body::Rigid body(MassProperties(m, com, I));
-        Transform XPF = rX(r, r.below(3)), XBM = rX(r, r.below(3));
+        Transform XPF = rX(r, scn == 5 ? 0 : r.below(3)), XBM = rX(r, scn == 5 ? 0 : r.below(3));
         int type;
-        if ((floating && i == 0) || scn == 4) type = 4;             // Free base; bushing scenario: Free bodies
-        else { type = r.below(8); if (type == 6) type = 1;   /* Gimbal: its Euler singularity can be reached along a trajectory */ if (type == 7 && (r.below(3) || scn == 1)) type = 0; if (type == 4 && scn != 2 && r.below(2)) type = 1; }
+        if ((floating && i == 0) || scn >= 4) type = 4;             // Free base; bushing / contact scenarios: Free bodies
+        else { type = r.below(11); if (type >= 8) type += 1;        /* 9 Planar, 10 Translation, 11 Screw */ if (type == 6) type = 1;   /* Gimbal: its Euler singularity can be reached along a trajectory */ if (type == 7 && (r.below(3) || scn == 1)) type = 0; if (type == 4 && scn != 2 && r.below(2)) type = 1; }
         MobilizedBody mb;
         MobilizedBody& par = M.bodies[p];
         switch (type) {
@@ -104,6 +106,9 @@ static void runCase(uint64_t caseSeed) {
         case 4: mb = MobilizedBody::Free(par, XPF, body, XBM); break;
         case 5: mb = MobilizedBody::Cylinder(par, XPF, body, XBM); break;
         case 6: mb = MobilizedBody::Gimbal(par, XPF, body, XBM); break;
+        case 9: mb = MobilizedBody::Planar(par, XPF, body, XBM); break;
+        case 10: mb = MobilizedBody::Translation(par, XPF, body, XBM); break;
+        case 11: mb = MobilizedBody::Screw(par, XPF, body, XBM, r.signedMag(0.2, 1.0)); break;
         default: mb = MobilizedBody::Weld(par, XPF, body, XBM); break;
         }
         M.bodies.push_back(mb); M.type.push_back(type); M.tags.push_back(std::string("mob.") + MOB[type]);
@@ -124,10 +129,10 @@ static void runCase(uint64_t caseSeed) {
     }
     const int nbAll = (int)M.bodies.size() - 1;
     // ---- force elements
-    if (!floating && scn != 4 && r.below(4) != 0) { Force::UniformGravity(M.forces, matter, rv(r, 6.0), r.range(-1, 1)); M.tags.push_back("force.UniformGravity"); }
-    if (!floating && scn != 4 && r.below(4) == 0) { Force::Gravity g(M.forces, matter, UnitVec3(rv(r) + Vec3(0.1, 2, 0.3)), r.range(2, 9)); M.tags.push_back("force.Gravity"); }
+    if (!floating && scn < 4 && r.below(4) != 0) { Force::UniformGravity(M.forces, matter, rv(r, 6.0), r.range(-1, 1)); M.tags.push_back("force.UniformGravity"); }
+    if (!floating && scn < 4 && r.below(4) == 0) { Force::Gravity g(M.forces, matter, UnitVec3(rv(r) + Vec3(0.1, 2, 0.3)), r.range(2, 9)); M.tags.push_back("force.Gravity"); }
     int nsp = 1 + r.below(3);
-    for (int k = 0; k < nsp && scn != 4; ++k) {
+    for (int k = 0; k < nsp && scn < 4; ++k) {
         int a = r.below(nb + 1), b = r.below(nb + 1);
         if (floating) { a = 1 + r.below(nb); b = 1 + r.below(nb); }
         if (a == b) continue;
@@ -137,11 +142,15 @@ static void runCase(uint64_t caseSeed) {
     }
     for (int i = 1; i <= nb; ++i) {
         int t = M.type[i];
-        bool qdotIsU = (t == 0 || t == 2 || t == 3 || t == 5);          // MobilityLinearSpring acts on q: use it where qdot = u
+        bool qdotIsU = (t == 0 || t == 2 || t == 3 || t == 5 || t == 9 || t == 10 || t == 11);          // MobilityLinearSpring acts on q: use it where qdot = u
         if (floating && i == 1) continue;                               // nothing may act between Ground and the floating base
-        if (qdotIsU && r.coin() && scn != 4) {
+        if (qdotIsU && r.coin() && scn < 4) {
             Force::MobilityLinearSpring(M.forces, M.bodies[i], MobilizerQIndex(0), r.range(2, 30), r.range(-0.5, 0.5));
             M.tags.push_back("force.MobilityLinearSpring");
+        }
+        if (qdotIsU && (scn == 0 || scn == 3) && r.below(4) == 0) {     // elastic joint stop (no dissipation): conservative, C1 only
+            Force::MobilityLinearStop(M.forces, M.bodies[i], MobilizerQIndex(0), r.range(100, 400), 0, -r.range(0.9, 1.3), r.range(0.9, 1.3));
+            M.tags.push_back("force.MobilityLinearStop");
         }
         if (scn == 3 && t != 7 && r.coin()) {
             Force::MobilityLinearDamper(M.forces, M.bodies[i], MobilizerUIndex(0), r.range(0.2, 3));
@@ -161,6 +170,19 @@ static void runCase(uint64_t caseSeed) {
             M.tags.push_back("force.LinearBushing.damped");
         }
     }
+    ContactTrackerSubsystem* tracker = nullptr; CompliantContactSubsystem* contact = nullptr;
+    if (scn == 5) {
+        // spheres (body origin = centre) falling on the half-space y < 0; Hunt-Crossley dissipation, no friction
+        tracker = new ContactTrackerSubsystem(sys); contact = new CompliantContactSubsystem(sys, *tracker);
+        contact->setTrackDissipatedEnergy(true);
+        Force::UniformGravity(M.forces, matter, Vec3(0, -r.range(4, 10), 0)); M.tags.push_back("force.UniformGravity");
+        matter.Ground().updBody().addContactSurface(Transform(Rotation(-Pi / 2, ZAxis), Vec3(0)),
+            ContactSurface(ContactGeometry::HalfSpace(), ContactMaterial(r.range(2e3, 2e4), r.range(0.1, 0.6), 0, 0, 0)));
+        for (int i = 1; i <= nb; ++i)
+            M.bodies[i].updBody().addContactSurface(Transform(),
+                ContactSurface(ContactGeometry::Sphere(r.range(0.2, 0.4)), ContactMaterial(r.range(2e3, 2e4), r.range(0.1, 0.6), 0, 0, 0)));
+        M.tags.push_back("force.CompliantContact.HuntCrossley");
+    }
     // ---- state
     State s = sys.realizeTopology();
     const bool euler = false;   // Euler-angle charts of Ball/Free can reach their singularity along a trajectory
@@ -169,6 +191,7 @@ static void runCase(uint64_t caseSeed) {
     auto setState = [&](State& st, vh::Rng rr) {      // note: rr by value -> same numbers every time it is called
         Vector q(st.getNQ()), u(st.getNU());
         double qs = scn == 4 ? 0.15 : 0.8, us = scn == 4 ? 0.6 : 1.0;
+        int sphere = 0;
         for (int i = 1; i <= nbAll; ++i) {
             const MobilizedBody& mb = M.bodies[i];
             int q0 = mb.getFirstQIndex(st), n = mb.getNumQ(st), k = 0;
@@ -178,6 +201,7 @@ static void runCase(uint64_t caseSeed) {
                 for (; k < 4; ++k) q[q0 + k] = e[k];
             }
             for (; k < n; ++k) q[q0 + k] = rr.range(-qs, qs);
+            if (scn == 5) { q[q0 + n - 3] = 1.2 * sphere++; q[q0 + n - 2] = rr.range(0.45, 1.2); }   // spheres start above the plane, apart in x
         }
         for (int i = 0; i < u.size(); ++i) u[i] = rr.range(-us, us);
         st.updQ() = q; st.updU() = u;
@@ -218,7 +242,7 @@ static void runCase(uint64_t caseSeed) {
         vh::Line in0 = vh::I(kind); in0.s(std::to_string((unsigned long long)caseSeed)).i(scn).i(integ).i(accExp).i(0).emit();
         vh::O("ke").d(0).emit(); { vh::Line L = vh::O("mom"); for (int k = 0; k < 6; ++k) L.d(0); L.emit(); }
         if (kind != "energyC") vh::O("power").d(0).emit();
-        if (kind != "energyC") { vh::Line L = vh::O("momrate"); for (int k = 0; k < 6; ++k) L.d(0); L.emit(); }
+        if (kind != "energyC") { vh::Line L = vh::O(kind == "energyF" ? "momrate+mom" : "momrate"); for (int k = 0; k < 6; ++k) L.d(0); L.emit(); }
         vh::D("skipped.noMobilities");
         return;
     }
@@ -226,40 +250,45 @@ static void runCase(uint64_t caseSeed) {
     // ---- simulate, sampling energy and momentum at report times
     const double T = r.range(1.0, 2.5);
     const int NREP = 25;
-    std::unique_ptr<Integrator> ig(makeIntegrator(integ, sys));
-    ig->setAccuracy(acc);
-    ig->setInternalStepLimit(20000);        // a trajectory that needs more is skipped (tagged), not judged
-    std::vector<double> E, KEv, PEv, Dv; std::vector<SpatialVec> Pv;
-    bool failed = ncons < 0; std::string failWhat;
-    double maxR = 1;
-    auto sample = [&](const State& st) {
-        sys.realize(st, Stage::Dynamics);
-        double ke = sys.calcKineticEnergy(st), pe = sys.calcPotentialEnergy(st);
-        KEv.push_back(ke); PEv.push_back(pe); E.push_back(sys.calcEnergy(st));
-        Pv.push_back(matter.calcSystemMomentumAboutGroundOrigin(st));
-        double d = 0; for (auto& b : M.bushings) d += b.getDissipatedEnergy(st);
-        Dv.push_back(d);
-        for (int i = 1; i <= nbAll; ++i) maxR = std::max(maxR, M.bodies[i].getBodyOriginLocation(st).norm());
-    };
-    State finalState;
-    if (!failed) {
+    struct Traj { std::vector<double> E, KE, PE, D; std::vector<SpatialVec> P; State fin; std::string fail; double maxR = 1; };
+    auto runSim = [&](double accuracy, Traj& tr, bool wantFinal) {
+        std::unique_ptr<Integrator> ig(makeIntegrator(integ, sys));
+        ig->setAccuracy(accuracy);
+        ig->setInternalStepLimit(100000);        // a trajectory that needs more is skipped (tagged), not judged
+        auto sample = [&](const State& st) {
+            sys.realize(st, Stage::Dynamics);
+            tr.KE.push_back(sys.calcKineticEnergy(st)); tr.PE.push_back(sys.calcPotentialEnergy(st)); tr.E.push_back(sys.calcEnergy(st));
+            tr.P.push_back(matter.calcSystemMomentumAboutGroundOrigin(st));
+            double d = 0; for (auto& b : M.bushings) d += b.getDissipatedEnergy(st);
+            if (contact) d += contact->getDissipatedEnergy(st);
+            tr.D.push_back(d);
+            for (int i = 1; i <= nbAll; ++i) tr.maxR = std::max(tr.maxR, M.bodies[i].getBodyOriginLocation(st).norm());
+        };
         try {
             // drive the Integrator directly: TimeStepper swallows ReachedStepLimit
             ig->initialize(s);
             sample(ig->getState());
-            for (int i = 1; i <= NREP && !failed; ++i) {
+            for (int i = 1; i <= NREP && tr.fail.empty(); ++i) {
                 const double tRep = T * i / NREP;
                 for (;;) {
                     Integrator::SuccessfulStepStatus st = ig->stepTo(tRep);
                     if (st == Integrator::ReachedReportTime) break;
-                    if (st == Integrator::ReachedStepLimit) { failed = true; failWhat = "stepLimit"; break; }
-                    if (st == Integrator::EndOfSimulation) { failed = true; failWhat = "endOfSimulation"; break; }
+                    if (st == Integrator::ReachedStepLimit) { tr.fail = "stepLimit"; break; }
+                    if (st == Integrator::EndOfSimulation) { tr.fail = "endOfSimulation"; break; }
                 }
-                if (!failed) sample(ig->getState());
+                if (tr.fail.empty()) sample(ig->getState());
             }
-            if (!failed) { finalState = ig->getState(); sys.realize(finalState, Stage::Acceleration); }
-        } catch (const std::exception& e) { failed = true; failWhat = e.what(); }
-    }
+            if (tr.fail.empty() && wantFinal) { tr.fin = ig->getState(); sys.realize(tr.fin, Stage::Acceleration); }
+        } catch (const std::exception& e) { tr.fail = std::string("threw:") + e.what(); }
+    };
+    Traj tr;
+    if (ncons < 0) tr.fail = "projectFailed"; else runSim(acc, tr, true);
+    // second run of the SAME problem at accuracy/100 (conservative scenarios): the drift must come down with the accuracy
+    Traj tr2; const bool second = tr.fail.empty() && scn <= 2 && accExp <= 6;
+    if (second) runSim(acc * 1e-2, tr2, false);
+    const bool failed = !tr.fail.empty(); const std::string failWhat = tr.fail;
+    std::vector<double>&E = tr.E, &KEv = tr.KE, &PEv = tr.PE, &Dv = tr.D; std::vector<SpatialVec>& Pv = tr.P;
+    const double maxR = tr.maxR; const State& finalState = tr.fin;
     // ---- record
     vh::Line in = vh::I(kind);
     in.s(std::to_string((unsigned long long)caseSeed)).i(scn).i(integ).i(accExp);
@@ -267,7 +296,7 @@ static void runCase(uint64_t caseSeed) {
         in.i(0).emit();
         vh::O("ke").d(0).emit(); { vh::Line L = vh::O("mom"); for (int k = 0; k < 6; ++k) L.d(0); L.emit(); }
         if (kind != "energyC") vh::O("power").d(0).emit();
-        if (kind != "energyC") { vh::Line L = vh::O("momrate"); for (int k = 0; k < 6; ++k) L.d(0); L.emit(); }
+        if (kind != "energyC") { vh::Line L = vh::O(kind == "energyF" ? "momrate+mom" : "momrate"); for (int k = 0; k < 6; ++k) L.d(0); L.emit(); }
         vh::D(std::string("skipped.") + (ncons < 0 ? "projectFailed" : (failWhat == "stepLimit" ? std::string("stepLimit.") : std::string("integratorThrew.")) + INTEG_NAMES[integ]));
         if (std::getenv("C11_TRACE")) std::fprintf(stderr, "  threw: %s\n", failWhat.c_str());
         return;
@@ -306,7 +335,10 @@ static void runCase(uint64_t caseSeed) {
     vh::O("ke").d(sys.calcKineticEnergy(fs)).emit();
     { SpatialVec P = matter.calcSystemMomentumAboutGroundOrigin(fs); vh::Line L = vh::O("mom"); L.v(P[0], 3).v(P[1], 3); L.emit(); }
     if (kind != "energyC") vh::O("power").d(appliedPower).emit();
-    if (kind != "energyC") { vh::Line L = vh::O("momrate"); L.v(appliedAboutG[0], 3).v(appliedAboutG[1], 3); L.emit(); }
+    if (kind == "energy") { vh::Line L = vh::O("momrate"); L.v(appliedAboutG[0], 3).v(appliedAboutG[1], 3); L.emit(); }
+    if (kind == "energyF") {   // the momentum rate is 0 on both sides: reported on top of the momentum so that the comparison has a scale
+        SpatialVec X = appliedAboutG + matter.calcSystemMomentumAboutGroundOrigin(fs);
+        vh::Line L = vh::O("momrate+mom"); L.v(X[0], 3).v(X[1], 3); L.emit(); }
 
     // ---- distribution
     vh::D("scenario." + std::to_string(scn)); vh::D(std::string("integ.") + INTEG_NAMES[integ]); vh::D("acc.1e-" + std::to_string(accExp));
@@ -316,31 +348,49 @@ static void runCase(uint64_t caseSeed) {
     if (std::getenv("C11_DUMP")) for (size_t i = 0; i < E.size(); ++i) std::fprintf(stderr, "  t%02d E=%.12g KE=%.6g PE=%.6g D=%.6g |P|=%.6g\n", (int)i, E[i], KEv[i], PEv[i], Dv[i], Pv[i][1].norm());
     // ---- trajectory predicates
     const std::string IN = INTEG_NAMES[integ];
+    const std::string ACC = ".1e-" + std::to_string(accExp);
     double keMax = 0, peSpan = 0;
     for (size_t i = 0; i < E.size(); ++i) { keMax = std::max(keMax, KEv[i]); peSpan = std::max(peSpan, std::abs(PEv[i] - PEv[0])); }
     const double scale = std::max(keMax + peSpan, 0.1);
-    const Consts& C = MEASURED[integ];
+    ++g_cases[integ];
+    auto judge = [&](Metric m, const char* pred, const std::string& key, double value) {
+        const double C = std::max(MEASURED[integ][m][accExp - 3], 1.0), bound = 10 * C;
+        vh::P(pred, key + IN + ACC, value, bound);
+        if (bound * acc * T < 0.1) ++g_informative[integ][m];                 // the bound allows < 10 % of the scale over the run
+        else vh::D(std::string("uninformative.") + METRIC_NAMES[m] + "." + IN + ACC);
+    };
     if (scn <= 2) {
         double drift = 0; for (double e : E) drift = std::max(drift, std::abs(e - E[0]));
-        vh::P("energy_drift_le_c_acc_T_scale", std::string("traj.energy.") + (scn == 1 ? "constrained." : "") + IN, drift / (acc * T * scale),
-              10 * (scn == 1 ? C.energyConstrained : C.energy));
+        judge(scn == 1 ? M_ENERGYC : M_ENERGY, "energy_drift_le_c_acc_T_scale", scn == 1 ? "traj.energy.constrained." : "traj.energy.", drift / (acc * T * scale));
+        if (second && tr2.fail.empty()) {
+            // same problem, accuracy/100: an accuracy-independent drift floor (force / potential mismatch, non-workless
+            // constraint, wrong inertia ...) shows as a ratio near 1 whatever the integrator's constant
+            double drift2 = 0; for (double e : tr2.E) drift2 = std::max(drift2, std::abs(e - tr2.E[0]));
+            vh::P("energy_drift_decreases_with_accuracy", "traj.energy.converges." + IN + ACC, drift2 / (drift + 1e-9 * scale), CONVERGENCE[integ]);
+            vh::D("second_run." + IN);
+        }
     }
     if (scn == 2) {
         double pl = std::sqrt(2 * keMax * Mtot) + 1e-3, pa = pl * maxR;
         double dl = 0, da = 0;
         for (auto& P : Pv) { da = std::max(da, (P[0] - Pv[0][0]).norm()); dl = std::max(dl, (P[1] - Pv[0][1]).norm()); }
-        vh::P("momentum_drift_le_c_acc_T", "traj.momentum." + IN, std::max(dl / pl, da / pa) / (acc * T), 10 * C.momentum);
+        judge(M_MOMENTUM, "momentum_drift_le_c_acc_T", "traj.momentum.", std::max(dl / pl, da / pa) / (acc * T));
+        if (second && tr2.fail.empty()) {
+            double dl2 = 0, da2 = 0;
+            for (auto& P : tr2.P) { da2 = std::max(da2, (P[0] - tr2.P[0][0]).norm()); dl2 = std::max(dl2, (P[1] - tr2.P[0][1]).norm()); }
+            vh::P("momentum_drift_decreases_with_accuracy", "traj.momentum.converges." + IN + ACC,
+                  std::max(dl2 / pl, da2 / pa) / (std::max(dl / pl, da / pa) + 1e-9), CONVERGENCE[integ]);
+        }
     }
     if (scn == 3) {
         double up = 0; for (size_t i = 1; i < E.size(); ++i) up = std::max(up, E[i] - E[i - 1]);
-        vh::P("energy_nonincreasing_with_dampers", "traj.monotone." + IN, up / (acc * T * scale), 10 * C.monotone);
-        vh::P("energy_ends_below_start", "traj.dissipates." + IN, (E.back() - E[0]) / (acc * T * scale), 10 * C.monotone);
+        judge(M_MONOTONE, "energy_nonincreasing_with_dampers", "traj.monotone.", std::max(up, E.back() - E[0]) / (acc * T * scale));
     }
-    if (scn == 4) {
+    if (scn >= 4) {
         double drift = 0, up = 0;
         for (size_t i = 0; i < E.size(); ++i) { drift = std::max(drift, std::abs(E[i] + Dv[i] - E[0] - Dv[0])); if (i) up = std::max(up, Dv[i - 1] - Dv[i]); }
-        vh::P("energy_plus_dissipated_constant", "traj.bushing.account." + IN, drift / (acc * T * scale), 10 * C.bushing);
-        vh::P("dissipated_energy_nondecreasing", "traj.bushing.monotone." + IN, up / (acc * T * scale), 10 * C.monotone);
+        judge(M_ACCOUNT, "energy_plus_dissipated_constant", scn == 4 ? "traj.bushing.account." : "traj.contact.account.", drift / (acc * T * scale));
+        vh::P("dissipated_energy_nondecreasing", std::string(scn == 4 ? "traj.bushing.monotone." : "traj.contact.monotone.") + IN + ACC, up / (acc * T * scale), 1e-6);
     }
 }
 
@@ -358,6 +408,16 @@ int main(int argc, char** argv) {
         }
         vh::Rng top(a.seed * 1000003ull + 1111);
         for (long c = 0; c < a.n; ++c) runCase(top.next() >> 1);
+        if (a.n >= 200) {
+            // coverage record: every integrator must have been judged by bounds that bite (see `uninformative.*` tags)
+            vh::I("coverage").s(std::to_string((unsigned long long)a.seed)).i(a.n).emit();
+            vh::O("coverage").i(0).emit();
+            for (int k = 0; k < NINTEG; ++k) {
+                int e = g_informative[k][M_ENERGY] + g_informative[k][M_ENERGYC];
+                vh::P("informative_energy_cases_ge_3", std::string("traj.coverage.energy.") + INTEG_NAMES[k], std::max(0, 3 - e), 0);
+                std::printf("D informative.energy.%s.%d_of_%d\n", INTEG_NAMES[k], e, g_cases[k]);
+            }
+        }
     } catch (const std::exception& e) {
         std::fprintf(stderr, "exception: %s\n", e.what());
         return 3;
